@@ -1,5 +1,6 @@
 // C16 conformance driver: performs every view operation on real tensors whose buffer holds its own flat indices and
-// records (offset, dimensions, elements read through the view) for re-computation by TLC (TensorTrace.tla).
+// records (offset, dimensions, elements read through the view, where a write through the view arrives) for re-computation by TLC
+// (TensorTrace.tla): partial-index views, slices, reshapes, views of views, gathers, storage conversions, integral, remove_if, stack.
 //   tensor_driver <out.ndjson> <seed> <maxdim-rank4> <maxdim-rank5> <random-cases>
 #include <algorithm>
 #include <limits>
